@@ -915,7 +915,7 @@ def r10(rr, repo):
 def r11(rr, repo):
     from .zmq import MQF
     mod = repo.module(MQF)
-    table = (('MQ.destroy', 'destroy', ('self.receiver', 'self.sender')), ('MQ.send_exit_msg', 'send_oob', ('self.receiver', 'self.sender')), ('MQ.poll', 'poll', ('self.sender',)))
+    table = (('MQ.destroy', 'destroy', ('self.receiver', 'self.sender')), ('MQ.send_exit_msg', 'send_oob', ('self.receiver', 'self.sender')), ('MQ.poll', 'poll', ('self.sender', 'self.metrics_sender')))
     for fname, meth, ends in table:
         _, fn = repo.find(f'{MQF}::{fname}')
         for end in ends:
@@ -924,6 +924,29 @@ def r11(rr, repo):
                 rr.ob(f'{fname} calls {end}.{meth}() exactly once', False, mod, fn, witness=f'{len(calls)} calls', key=f'mq-endpoint|{fname}|{end}')
                 continue
             g = q.effective_guards(calls[0], fn)
-            exists = [(t, p) for t, p in g if end in t]
+            exists = [(t, p) for t, p in g if end in t.replace('self.metrics_sender', '#') or (end == 'self.metrics_sender' and end in t)]
             ok = bool(exists) and all((p and t.replace(' ', '') in (end, f'{end}isnotNone')) or ((not p) and t.replace(' ', '') == f'{end}isNone') for t, p in exists) and len(exists) == len(g)
             rr.ob(f'{fname}: {end}.{meth}() runs exactly when that endpoint exists', ok, mod, calls[0], witness=str(g)[:120], key=f'mq-endpoint|{fname}|{end}')
+
+
+@rule('C08.R12', "communication is torn down also when it could only be set up in part: the endpoints of a filter are created one after the other (outputs first); when a later one can not be created the earlier "
+                 "ones are destroyed before the error leaves MQ.__init__ - nobody else holds the half built object, its ports would stay bound until it is collected, after run() has ended with the error")
+def r12(rr, repo):
+    from .zmq import MQF
+    mod, init = repo.find(f'{MQF}::MQ.__init__')
+    makes = [c for c in q.calls_in(init, into_functions=False) if U(c.func) in ('ZMQSender', 'ZMQReceiver')]
+    rr.floor('endpoint constructions in MQ.__init__', len(makes), 3, mod, init)
+    from ..model import ancestors as _anc
+    for c in makes:
+        tries = [a for a in _anc(c) if isinstance(a, ast.Try) and any(x is c for st_ in a.body for x in ast.walk(st_))]
+        ok = False
+        for t in tries:
+            for h in t.handlers:
+                wide = h.type is None or U(h.type) in ('BaseException', 'Exception')
+                destroys = any(isinstance(x, ast.Call) and U(x.func) == 'self.destroy' for x in ast.walk(h))
+                reraises = any(isinstance(x, ast.Raise) and x.exc is None for x in h.body)
+                ok = ok or (wide and destroys and reraises)
+        rr.ob('a failure while this endpoint is created destroys what was created before and is raised again', ok, mod, c, witness=U(c)[:60], key=f'partial-setup-torn-down|{U(c.func)}|{makes.index(c)}')
+    pre = [n for n in init.body if isinstance(n, ast.Assign) and any('self.metrics_' == U(t) for t in n.targets)]
+    first_try = min([n.lineno for n in init.body if isinstance(n, ast.Try)] or [10 ** 9])
+    rr.ob('everything MQ.destroy touches exists before the first endpoint is created', bool(pre) and pre[0].lineno < first_try, mod, pre[0] if pre else init, witness=f'self.metrics_ assigned at line {pre[0].lineno if pre else None}, try at {first_try}', key='destroy-usable-early')
